@@ -60,8 +60,12 @@ func (fv *FuncVC) call(x *ssa.Call) {
 	} else if com.IsInvoke() {
 		name = types.TypeString(com.Value.Type(), nil) + "." + com.Method.Name()
 	}
-	fv.assumptions["uncontracted call: "+name+" (results arbitrary, caller-visible memory havocked)"] = true
-	fv.havocCall(x, nil, true)
+	// a callee without any contract may do anything: every reachable call needs at least a declared (possibly trusted)
+	// contract, so that what is assumed about it is written down. The call site must be unreachable.
+	fv.oblige("uncontracted", "uncontracted:"+sanitize(name), append(append([]string{}, frameProps...), panicProps...), "false", x.Pos(),
+		"call of "+name+", which has no contract, is unreachable under the contract's assumptions")
+	hs := fv.havocCall(x, nil, true)
+	hs.bound = ""
 	ts := fv.freshResults(x)
 	for i, t := range ts {
 		fv.assume(fv.wfVal(t, com.Signature().Results().At(i).Type(), fv.curAlloc(), 0))
@@ -255,7 +259,8 @@ func (fv *FuncVC) callWithContractEnv(x *ssa.Call, cc *FuncContract, extra map[s
 		if isInterior {
 			continue
 		}
-		fv.oblige("frame@call", "frame@call:"+calleeName, frameProps, fv.writable(m.heap, m.id), x.Pos(), fmt.Sprintf("%s may write %s, which must be writable here", calleeName, m.heap))
+		// a nil slice / map / pointer designates no memory: nothing can be written through it
+		fv.oblige("frame@call", "frame@call:"+calleeName, frameProps, or(eq(m.id, "0"), fv.writable(m.heap, m.id)), x.Pos(), fmt.Sprintf("%s may write %s, which must be writable here", calleeName, m.heap))
 	}
 	if cc.Pure {
 		mods = nil
